@@ -11,9 +11,11 @@ import (
 	"encoding/json"
 	"fmt"
 	"os"
+	"os/exec"
 	"runtime"
 	"strconv"
 	"strings"
+	"sync/atomic"
 	"syscall"
 	"testing"
 	"time"
@@ -170,6 +172,10 @@ func TestRaceC02(t *testing.T) {
 		hc := make(chan int64, capacity)
 		nS, nR := 2+next(6), 1+next(4)
 		ctx, cancel := context.WithCancel(context.Background())
+		if next(3) == 0 {
+			// a context with a deadline far away, cancelled early
+			ctx, cancel = context.WithTimeout(context.Background(), time.Hour)
+		}
 		type res struct {
 			src string
 			err error
@@ -284,6 +290,26 @@ func TestRaceC01(t *testing.T) {
 	r := uint64(seed)*2654435761 + 99991
 	next := func(n int) int { r = r*6364136223846793005 + 1442695040888963407; return int((r >> 33) % uint64(n)) }
 	rounds, timeouts, scriptErrs := 0, 0, 0
+	// first-use storms: a process-wide table keyed by a small space of shapes (number of parameters, ...)
+	// is only ever filled once per process, so each storm runs in a fresh child process of this binary
+	storms := 4 + int(d/time.Second)
+	if storms > 400 {
+		storms = 400
+	}
+	for i := 0; i < storms; i++ {
+		cmd := exec.Command(os.Args[0], "-test.run", "^TestStormC01$", "-test.timeout", "120s")
+		cmd.Env = append(os.Environ(), fmt.Sprintf("VERIF_STORM=%d", seed*1000+int64(i)))
+		out, err := cmd.CombinedOutput()
+		if err != nil {
+			o := string(out)
+			if len(o) > 4000 {
+				o = o[:4000]
+			}
+			fmt.Printf("REAL-LEG VIOLATION class=process-crash\na fresh host process in which 8 script goroutines (sharing no container) evaluated never-seen shapes at the same time died: %v\n%s\n", err, o)
+			t.FailNow()
+		}
+	}
+	end = time.Now().Add(d)
 	for round := 0; time.Now().Before(end); round++ {
 		runtime.GOMAXPROCS([]int{2, 4, 8, 16}[next(4)])
 		k := 2 + next(7)
@@ -328,10 +354,54 @@ func TestRaceC01(t *testing.T) {
 		cancel()
 		rounds++
 	}
-	report(map[string]any{"rounds": rounds, "seconds": d.Seconds(), "timeouts": timeouts, "script_errors_caught": scriptErrs})
+	report(map[string]any{"rounds": rounds, "seconds": d.Seconds(), "timeouts": timeouts, "script_errors_caught": scriptErrs, "first_use_storm_processes": storms})
 }
 
-const c01Batteries = 12
+// TestStormC01 is the body of one storm child (see TestRaceC01); run directly it does nothing.
+func TestStormC01(t *testing.T) {
+	sv := os.Getenv("VERIF_STORM")
+	if sv == "" {
+		return
+	}
+	seed, _ := strconv.ParseInt(sv, 10, 64)
+	runtime.GOMAXPROCS(16)
+	const k = 8
+	var b strings.Builder
+	fmt.Fprintf(&b, "done = make(chan int64, %d)\nstart = make(chan int64)\n", k)
+	for g := 0; g < k; g++ {
+		b.WriteString("go func() {\ndefer func() { done <- 1 }()\n<-start\n")
+		for j := 0; j < 26; j++ {
+			u := fmt.Sprintf("%d_%d_%d", seed, g, j)
+			v := fmt.Sprintf("%d_%d", g, j)
+			// parameter counts are spread so that every goroutine brings its own new shapes
+			n := 5 + (g+j*k+int(seed%7))%115
+			var ps, as []string
+			for i := 0; i < n; i++ {
+				ps = append(ps, "q"+strconv.Itoa(i))
+				as = append(as, strconv.Itoa(i))
+			}
+			if j%2 == 1 {
+				ps[n-1] += "..."
+			}
+			b.WriteString("try {\nf" + v + " = func(" + strings.Join(ps, ", ") + ") { return q0 }\nf" + v + "(" + strings.Join(as, ", ") + ")\n")
+			b.WriteString(c01Battery(j, u, v) + "\n} catch e { }\n")
+		}
+		b.WriteString("}()\n")
+	}
+	fmt.Fprintf(&b, "close(start)\nfor i = 0; i < %d; i++ { <-done }\n", k)
+	e := env.NewEnv()
+	core.Import(e)
+	ctx, cancel := context.WithTimeout(context.Background(), 60*time.Second)
+	defer cancel()
+	if _, err := vm.ExecuteContext(ctx, e, &vm.Options{Debug: false}, b.String()); err != nil && ctx.Err() == nil {
+		// a script error is not a crash; nothing to report
+		_ = err
+	}
+}
+
+const c01Batteries = 14
+
+var c01Shape atomic.Int64
 
 // c01Battery returns statements using only names that end in the goroutine-unique suffix v (variables) and
 // shapes that depend on u (fresh per round, sometimes shared by the goroutines of one round).
@@ -359,6 +429,18 @@ func c01Battery(k int, u, v string) string {
 		return "n" + v + " = 5\nswitch n" + v + " {\ncase 1, 2:\nn" + v + "++\ncase 5:\nn" + v + " += 2\ndefault:\nn" + v + "--\n}\nq" + v + " = &n" + v + "\n*q" + v + " = 6\nz" + v + " = n" + v + " > 5 ? \"a\" : \"b\""
 	case 10:
 		return "a" + v + " = [1, 2, 3]\na" + v + " += 4\nb" + v + " = a" + v + "[1:3]\ns" + v + " = \"abc\" + 1\ns" + v + "[1:2]\nm" + v + " = {\"k" + u + "\": [1, {\"z\": 2}]}\nm" + v + ".k" + u + "[1].z\ndelete(m" + v + ", \"k" + u + "\")"
+	case 12, 13:
+		// function literals of a shape (number of parameters, variadic or not) no earlier round has evaluated
+		n := 5 + int(c01Shape.Add(1))%110
+		var ps, as []string
+		for i := 0; i < n; i++ {
+			ps = append(ps, "q"+strconv.Itoa(i))
+			as = append(as, strconv.Itoa(i))
+		}
+		if k%c01Batteries == 13 {
+			ps[n-1] += "..."
+		}
+		return "f" + v + " = func(" + strings.Join(ps, ", ") + ") { return q0 }\nf" + v + "(" + strings.Join(as, ", ") + ")"
 	default:
 		return "p" + v + " = new(struct { P" + u + " *struct { Q" + u + " int64 } })\ntry { p" + v + ".P" + u + ".Q" + u + " } catch e" + v + " { }\nf" + v + " = import(\"fmt\")\nf" + v + ".Sprintf(\"%v-%v\", 1, \"" + u + "\")\nt" + v + " = import(\"time\")\nt" + v + ".Now().Unix()"
 	}
